@@ -619,7 +619,22 @@ func (e *Exec) resolveModItem(env *SpecEnv, c *Clause) []modTarget {
 func (e *Exec) applyModifies(env *SpecEnv, fc *FuncContract, st *State) {
 	targets, all := e.resolveModifies(env, fc)
 	if all {
+		// "modifies *" with "preserves T.f": those field maps keep their values for every object that
+		// existed before the call
+		type kept struct{ name, term string }
+		var keep []kept
+		for _, pc := range fc.Preserves {
+			for _, m := range e.rawModMaps(pc) {
+				keep = append(keep, kept{m, e.hget(st, m)})
+			}
+		}
+		a0 := e.hget(st, "G_alloc")
 		e.havocAll(st)
+		for _, k := range keep {
+			n := e.hhavoc(st, k.name)
+			q := e.sc.freshName("q.r")
+			e.sc.assume(st.reach, fmt.Sprintf("(forall ((%s Int)) (! (=> %s (= (select %s %s) (select %s %s))) :pattern ((select %s %s))))", q, e.existedAtEntry(q, a0), n, q, k.term, q, n, q))
+		}
 		return
 	}
 	pre := env.st
@@ -1061,6 +1076,11 @@ func (e *Exec) rawModMaps(c *Clause) []string {
 		if p.Contracts != nil {
 			for _, fc := range p.Contracts.Funcs {
 				for _, mc := range fc.ModClauses {
+					if mc == c {
+						pkg = p
+					}
+				}
+				for _, mc := range fc.Preserves {
 					if mc == c {
 						pkg = p
 					}
